@@ -1,7 +1,290 @@
-//! Implementation-side evaluator for the `filterset` correspondence checks (see props/).
+//! Implementation-side evaluator for the `filterset` correspondence checks (props/C05.py,
+//! props/C20.py). Public API of nextest-filtering only.
+//!
+//! ops:
+//!   parse   {s}                       -> ParsedExpr::parse + Filterset::parse observations
+//!   oracle  {globs, regexes, inputs}  -> validity / match tables of the real glob and regex engines,
+//!                                        obtained through the crate's own NameMatcher values
+//!   graph   {}                        -> workspace packages of the fixture graph + depends_on matrix
+//!   eval    {s, default, queries}     -> matches_test / matches_binary on each query
+//!   deep    {unit, close, depth, leaf} -> parse a deeply nested expression (run in a child process)
+use crate::common::*;
+use guppy::graph::DependencyDirection;
+use nextest_filtering::{
+    errors::ParseSingleError, BinaryQuery, CompiledExpr, EvalContext, Filterset, FiltersetKind,
+    FiltersetLeaf, NameMatcher, ParseContext, ParsedExpr, TestQuery,
+};
+use nextest_metadata::RustBinaryId;
 use serde_json::{json, Value};
+use std::sync::OnceLock;
+
+fn gplatform(s: &str) -> guppy::graph::cargo::BuildPlatform {
+    match s {
+        "host" => guppy::graph::cargo::BuildPlatform::Host,
+        _ => guppy::graph::cargo::BuildPlatform::Target,
+    }
+}
+
+fn pcx() -> &'static ParseContext<'static> {
+    static C: OnceLock<ParseContext<'static>> = OnceLock::new();
+    C.get_or_init(|| ParseContext::new(graph()))
+}
+
+fn err_obs(e: &ParseSingleError) -> Value {
+    use ParseSingleError::*;
+    let (name, span) = match e {
+        InvalidRegex { span, .. } => ("InvalidRegex", Some(*span)),
+        InvalidGlob { span, .. } => ("InvalidGlob", Some(*span)),
+        BannedPredicate { span, .. } => ("BannedPredicate", Some(*span)),
+        InvalidRegexWithoutMessage(s) => ("InvalidRegexWithoutMessage", Some(*s)),
+        ExpectedCloseRegex(s) => ("ExpectedCloseRegex", Some(*s)),
+        InvalidOrOperator(s) => ("InvalidOrOperator", Some(*s)),
+        InvalidAndOperator(s) => ("InvalidAndOperator", Some(*s)),
+        UnexpectedArgument(s) => ("UnexpectedArgument", Some(*s)),
+        UnexpectedComma(s) => ("UnexpectedComma", Some(*s)),
+        InvalidString(s) => ("InvalidString", Some(*s)),
+        ExpectedOpenParenthesis(s) => ("ExpectedOpenParenthesis", Some(*s)),
+        ExpectedCloseParenthesis(s) => ("ExpectedCloseParenthesis", Some(*s)),
+        InvalidEscapeCharacter(s) => ("InvalidEscapeCharacter", Some(*s)),
+        ExpectedExpr(s) => ("ExpectedExpr", Some(*s)),
+        ExpectedEndOfExpression(s) => ("ExpectedEndOfExpression", Some(*s)),
+        NoPackageMatch(s) => ("NoPackageMatch", Some(*s)),
+        NoBinaryIdMatch(s) => ("NoBinaryIdMatch", Some(*s)),
+        NoBinaryNameMatch(s) => ("NoBinaryNameMatch", Some(*s)),
+        InvalidPlatformArgument(s) => ("InvalidPlatformArgument", Some(*s)),
+        Unknown => ("Unknown", None),
+        _ => ("Other", None),
+    };
+    match span {
+        Some(s) => json!([name, s.offset(), s.len()]),
+        None => json!([name]),
+    }
+}
+
+fn parse_obs(s: &str, kind: FiltersetKind) -> Value {
+    let pe = match ParsedExpr::parse(s) {
+        Ok(e) => json!({ "ok": true, "dbg": format!("{e:?}"), "disp": e.to_string() }),
+        Err(errs) => json!({ "ok": false, "errors": errs.iter().map(err_obs).collect::<Vec<_>>() }),
+    };
+    let fs = match Filterset::parse(s.to_owned(), pcx(), kind) {
+        Ok(f) => json!({ "ok": true, "disp": f.parsed.to_string() }),
+        Err(e) => json!({ "ok": false, "errors": e.errors.iter().map(err_obs).collect::<Vec<_>>() }),
+    };
+    json!({ "pe": pe, "fs": fs, "len": s.len() })
+}
+
+/// `\u{..}` for everything except ASCII alphanumerics: a spelling every version of the string
+/// parser maps back to the same text.
+fn esc_string(s: &str) -> String {
+    let mut out = String::new();
+    for c in s.chars() {
+        if c.is_ascii_alphanumeric() {
+            out.push(c);
+        } else {
+            out.push_str(&format!("\\u{{{:x}}}", c as u32));
+        }
+    }
+    out
+}
+
+fn esc_regex(s: &str) -> String {
+    s.replace('/', "\\/")
+}
+
+fn leaf_matcher(text: &str) -> Result<NameMatcher, Vec<ParseSingleError>> {
+    match Filterset::parse(text.to_owned(), pcx(), FiltersetKind::Test) {
+        Ok(f) => match f.compiled {
+            CompiledExpr::Set(FiltersetLeaf::Test(m, _)) => Ok(m),
+            _ => Err(vec![]),
+        },
+        Err(e) => Err(e.errors),
+    }
+}
+
+fn matches(m: &NameMatcher, inputs: &[String]) -> Vec<bool> {
+    // NameMatcher::is_match is crate-private: evaluate through a test() leaf
+    let leaf = CompiledExpr::Set(FiltersetLeaf::Test(m.clone(), (0, 0).into()));
+    let all = CompiledExpr::ALL;
+    let ecx = EvalContext {
+        default_filter: &all,
+    };
+    let pid = package_id("a");
+    let bid = RustBinaryId::new("x");
+    let kind = kind_of("lib");
+    inputs
+        .iter()
+        .map(|i| {
+            leaf.matches_test(
+                &TestQuery {
+                    binary_query: BinaryQuery {
+                        package_id: &pid,
+                        binary_id: &bid,
+                        binary_name: "x",
+                        kind: &kind,
+                        platform: gplatform("target"),
+                    },
+                    test_name: i,
+                },
+                &ecx,
+            )
+        })
+        .collect()
+}
+
+fn oracle(case: &Value) -> Value {
+    let inputs = strs(&case["inputs"]);
+    let mut globs = Vec::new();
+    for g in strs(&case["globs"]) {
+        if g.is_empty() {
+            // the empty text is reported by the string parser (InvalidString), so Filterset::parse
+            // fails either way; ParsedExpr::parse still yields the expression iff the glob engine
+            // accepted the empty glob
+            let ok = ParsedExpr::parse("test(#)").is_ok();
+            globs.push(json!({ "g": g, "valid": ok, "m": inputs.iter().map(|i| i.is_empty()).collect::<Vec<_>>() }));
+            continue;
+        }
+        match leaf_matcher(&format!("test(#{})", esc_string(&g))) {
+            Ok(NameMatcher::Glob { glob, .. }) if glob.as_str() == g => {
+                globs.push(json!({ "g": g, "valid": true, "m": matches(&NameMatcher::Glob { glob, implicit: false }, &inputs) }))
+            }
+            Ok(_) => globs.push(json!({ "g": g, "valid": null, "why": "oracle spelling did not reproduce the text" })),
+            Err(errs) => {
+                let only_glob = errs.len() == 1 && matches!(errs[0], ParseSingleError::InvalidGlob { .. });
+                globs.push(json!({ "g": g, "valid": if only_glob { json!(false) } else { Value::Null },
+                                   "errors": errs.iter().map(err_obs).collect::<Vec<_>>() }))
+            }
+        }
+    }
+    let mut regexes = Vec::new();
+    for r in strs(&case["regexes"]) {
+        let text = format!("test(/{}/)", esc_regex(&r));
+        match leaf_matcher(&text) {
+            Ok(NameMatcher::Regex(re)) if re.as_str() == r => {
+                regexes.push(json!({ "r": r, "valid": true, "m": matches(&NameMatcher::Regex(re), &inputs) }))
+            }
+            Ok(_) => regexes.push(json!({ "r": r, "valid": null, "why": "oracle spelling did not reproduce the text" })),
+            Err(errs) => {
+                // span relative to the start of the regex body (offset 6 in "test(/")
+                let v = match errs.as_slice() {
+                    [ParseSingleError::InvalidRegex { span, .. }] => {
+                        json!({ "r": r, "valid": false, "off": span.offset() as i64 - 6, "len": span.len() })
+                    }
+                    [ParseSingleError::InvalidRegexWithoutMessage(_)] => {
+                        json!({ "r": r, "valid": false })
+                    }
+                    _ => json!({ "r": r, "valid": null, "errors": errs.iter().map(err_obs).collect::<Vec<_>>() }),
+                };
+                regexes.push(v)
+            }
+        }
+    }
+    json!({ "globs": globs, "regexes": regexes })
+}
+
+fn graph_obs() -> Value {
+    let g = graph();
+    let pkgs: Vec<_> = g
+        .resolve_workspace()
+        .packages(DependencyDirection::Forward)
+        .collect();
+    let names: Vec<_> = pkgs.iter().map(|p| p.name().to_owned()).collect();
+    let ids: Vec<_> = pkgs.iter().map(|p| p.id().repr().to_owned()).collect();
+    let mut cache = g.new_depends_cache();
+    let dep: Vec<Vec<bool>> = pkgs
+        .iter()
+        .map(|a| {
+            pkgs.iter()
+                .map(|b| cache.depends_on(a.id(), b.id()).unwrap_or(false))
+                .collect()
+        })
+        .collect();
+    json!({ "names": names, "ids": ids, "depends_on": dep })
+}
+
+fn eval(case: &Value) -> Value {
+    let s = case["s"].as_str().unwrap();
+    let fs = match Filterset::parse(s.to_owned(), pcx(), FiltersetKind::Test) {
+        Ok(f) => f,
+        Err(e) => {
+            return json!({ "ok": false, "errors": e.errors.iter().map(err_obs).collect::<Vec<_>>() })
+        }
+    };
+    let default = match case["default"].as_str() {
+        Some(d) => match Filterset::parse(d.to_owned(), pcx(), FiltersetKind::DefaultFilter) {
+            Ok(f) => f.compiled,
+            Err(e) => {
+                return json!({ "ok": false, "default_errors": e.errors.iter().map(err_obs).collect::<Vec<_>>() })
+            }
+        },
+        None => CompiledExpr::ALL,
+    };
+    let ecx = EvalContext {
+        default_filter: &default,
+    };
+    let mut out = Vec::new();
+    for q in case["queries"].as_array().unwrap() {
+        // [pkg index (into graph op's list), binary_id, binary_name, kind, platform, test_name]
+        let pid = guppy::PackageId::new(q[0].as_str().unwrap());
+        let bid = RustBinaryId::new(q[1].as_str().unwrap());
+        let kind = kind_of(q[3].as_str().unwrap());
+        let bq = BinaryQuery {
+            package_id: &pid,
+            binary_id: &bid,
+            binary_name: q[2].as_str().unwrap(),
+            kind: &kind,
+            platform: gplatform(q[4].as_str().unwrap()),
+        };
+        let t = fs.matches_test(
+            &TestQuery {
+                binary_query: bq,
+                test_name: q[5].as_str().unwrap(),
+            },
+            &ecx,
+        );
+        let b = match fs.matches_binary(&bq, &ecx) {
+            Some(true) => 1,
+            Some(false) => 0,
+            None => 2,
+        };
+        out.push(json!([t as u64, b]));
+    }
+    json!({ "ok": true, "disp": fs.parsed.to_string(), "dbg": format!("{:?}", fs.parsed), "res": out })
+}
+
+fn deep(case: &Value) -> Value {
+    let unit = case["unit"].as_str().unwrap();
+    let close = case["close"].as_str().unwrap();
+    let depth = case["depth"].as_u64().unwrap() as usize;
+    let leaf = case["leaf"].as_str().unwrap();
+    let s = format!("{}{}{}", unit.repeat(depth), leaf, close.repeat(depth));
+    let ok = match ParsedExpr::parse(&s) {
+        Ok(e) => {
+            // also exercise the printer and the re-parse on the deep tree
+            let printed = e.to_string();
+            match ParsedExpr::parse(&printed) {
+                Ok(e2) => json!({ "ok": true, "reparse_ok": true, "same_print": e2.to_string() == printed }),
+                Err(_) => json!({ "ok": true, "reparse_ok": false }),
+            }
+        }
+        Err(errs) => json!({ "ok": false, "nerrors": errs.len() }),
+    };
+    ok
+}
 
 pub fn run(case: &Value) -> Value {
-    let _ = case;
-    json!({ "error": "not implemented" })
+    match case["op"].as_str().unwrap_or("") {
+        "parse" => parse_obs(
+            case["s"].as_str().unwrap(),
+            if case["kind"].as_str() == Some("default") {
+                FiltersetKind::DefaultFilter
+            } else {
+                FiltersetKind::Test
+            },
+        ),
+        "oracle" => oracle(case),
+        "graph" => graph_obs(),
+        "eval" => eval(case),
+        "deep" => deep(case),
+        other => json!({ "error": format!("unknown op {other}") }),
+    }
 }
